@@ -45,8 +45,9 @@ type modPkg struct {
 }
 
 type authPass struct {
-	c    *Ctx
-	mods map[string]*modPkg // x/<name>/keeper, loaded on demand
+	lastCallee string // the authorisation function of the guard recognised last
+	c          *Ctx
+	mods       map[string]*modPkg // x/<name>/keeper, loaded on demand
 }
 
 func (p *authPass) mod(name string) *modPkg {
@@ -343,31 +344,47 @@ func (p *authPass) effectOf(n ast.Node, fd *ast.FuncDecl, mod string, depth int,
 	return worst, auth
 }
 
-// authCall recognises an authorisation call; returns (store, role, signer argument).
+// authCall recognises an authorisation call; returns (store, role, signer argument).  The callee must be named: the
+// admin keeper's IsAdminAccount(ctx, ROLE, signer), the oracle keeper's IsAdminAccount(ctx, signer), the clp keeper's own
+// ValidateAddress(ctx, signer).  A call of one of these names on anything else is `.unknown`.
 func (p *authPass) authCall(call *ast.CallExpr, fd *ast.FuncDecl, mod string) (string, string, ast.Expr) {
 	sel, ok := call.Fun.(*ast.SelectorExpr)
 	if !ok {
 		return "", "", nil
 	}
+	ch := chain(sel.X)
+	owner := ""
+	for _, el := range ch[1:] {
+		if k := keeperOf(el); k != "" {
+			owner = k
+		}
+	}
+	own := ch[0] == recvName(fd) && recvName(fd) != "" // a method of the current module's own keeper / msg server
 	switch sel.Sel.Name {
 	case "IsAdminAccount":
 		if len(call.Args) == 3 {
+			if !(owner == "admin" || (mod == "admin" && own && (owner == "" || owner == "."))) {
+				return ".unknown", "?", nil
+			}
 			role := "?"
 			if rs, ok := call.Args[1].(*ast.SelectorExpr); ok && strings.HasPrefix(rs.Sel.Name, "AdminType_") {
 				role = strings.TrimPrefix(rs.Sel.Name, "AdminType_")
 			}
+			p.lastCallee = "adminKeeper.IsAdminAccount"
 			return ".admin", role, call.Args[2]
 		}
 		if len(call.Args) == 2 {
+			if !(owner == "oracle" || (mod == "oracle" && own && (owner == "" || owner == "."))) {
+				return ".unknown", "?", nil
+			}
+			p.lastCallee = "oracleKeeper.IsAdminAccount"
 			return ".oracle", "", call.Args[1]
 		}
 		return ".unknown", "?", nil
 	case "ValidateAddress":
-		if mod == "clp" && len(call.Args) == 2 {
-			ch := chain(sel.X)
-			if ch[0] == recvName(fd) {
-				return ".clpWhitelist", "", call.Args[1]
-			}
+		if mod == "clp" && len(call.Args) == 2 && own && (owner == "" || owner == ".") {
+			p.lastCallee = "clpKeeper.ValidateAddress"
+			return ".clpWhitelist", "", call.Args[1]
 		}
 	}
 	return "", "", nil
@@ -461,6 +478,7 @@ type guardInfo struct {
 	authCalls  int
 	guardTop   bool
 	calleeName string
+	authFn     string
 }
 
 // isGuardStmt: `if !AUTH(...) { …; return …, <non-nil err> }`
@@ -525,6 +543,8 @@ func (p *authPass) analyze(fr *frame, mod string, depth int) guardInfo {
 	for i, st := range stmts {
 		if store, role, signer, failErr, ok := p.isGuardStmt(st, fd, mod); ok {
 			g.found, g.guardTop, g.store, g.role, g.failErr = true, true, store, role, failErr
+			p.authCall(unparenA(unparenA(st.(*ast.IfStmt).Cond).(*ast.UnaryExpr).X).(*ast.CallExpr), fd, mod)
+			g.authFn = p.lastCallee
 			g.signer = "?"
 			if signer != nil {
 				g.signer = p.eval(fr, signer, st.Pos())
@@ -564,6 +584,7 @@ func (p *authPass) analyze(fr *frame, mod string, depth int) guardInfo {
 						g.pre = append(g.pre, k)
 						g.pre = append(g.pre, cg.pre...)
 						g.found, g.guardTop, g.store, g.role, g.signer = true, cg.guardTop, cg.store, cg.role, cg.signer
+						g.authFn = cg.authFn
 						g.failErr = cg.failErr && errReturned
 						g.calleeName = callee.Name.Name
 						return g
@@ -588,8 +609,10 @@ func (p *authPass) analyze(fr *frame, mod string, depth int) guardInfo {
 }
 
 // delegation recognises   err := CALL ; if err != nil { …return …, err }
-//                         if err := CALL; err != nil { …return …, err }
-//                         return CALL
+//
+//	if err := CALL; err != nil { …return …, err }
+//	return CALL
+//
 // and returns the call and whether its error is passed on.
 func (p *authPass) delegation(st ast.Stmt, stmts []ast.Stmt, i int) (*ast.CallExpr, bool) {
 	switch s := st.(type) {
@@ -719,7 +742,7 @@ func passAuth(c *Ctx) error {
 				gs = "?"
 			}
 			if impl == nil || len(impl.Type.Params.List) < 2 || len(impl.Type.Params.List[1].Names) != 1 {
-				lines = append(lines, fmt.Sprintf("  { module := %s, name := %s, msgType := %s, store := .unknown, role := \"?\", signerField := \"?\", getSignersField := %s, pre := [], guardTop := false, failReturnsError := false, authCalls := 0 }",
+				lines = append(lines, fmt.Sprintf("  { module := %s, name := %s, msgType := %s, store := .unknown, role := \"?\", callee := \"?\", signerField := \"?\", getSignersField := %s, pre := [], guardTop := false, failReturnsError := false, authCalls := 0 }",
 					LeanStr(mod), LeanStr(im.name), LeanStr(im.msgType), LeanStr(gs)))
 				continue
 			}
@@ -736,8 +759,8 @@ func passAuth(c *Ctx) error {
 			for i, k := range g.pre {
 				pre[i] = kindLean[k]
 			}
-			lines = append(lines, fmt.Sprintf("  { module := %s, name := %s, msgType := %s, store := %s, role := %s, signerField := %s, getSignersField := %s, pre := [%s], guardTop := %v, failReturnsError := %v, authCalls := %d }",
-				LeanStr(mod), LeanStr(im.name), LeanStr(im.msgType), g.store, LeanStr(g.role), LeanStr(signer), LeanStr(gs), strings.Join(pre, ", "), g.guardTop, g.failErr, g.authCalls))
+			lines = append(lines, fmt.Sprintf("  { module := %s, name := %s, msgType := %s, store := %s, role := %s, callee := %s, signerField := %s, getSignersField := %s, pre := [%s], guardTop := %v, failReturnsError := %v, authCalls := %d }",
+				LeanStr(mod), LeanStr(im.name), LeanStr(im.msgType), g.store, LeanStr(g.role), LeanStr(g.authFn), LeanStr(signer), LeanStr(gs), strings.Join(pre, ", "), g.guardTop, g.failErr, g.authCalls))
 		}
 	}
 	sb.WriteString(strings.Join(lines, ",\n"))
